@@ -75,6 +75,13 @@ pub fn exercise_loaded_hdr(rec: &mut Rec, hdr: &Multiboot2Header, opts: &HdrOpts
                 rec.t.push("w.end", Val::Txt("step-bound".into()));
                 break;
             }
+            if i < 8 {
+                let sh = catch(|| it.size_hint());
+                rec.t.push(format!("w.dbg.size_hint{i}"), sh.map_or(Val::Panic, |(lo, hi)| Val::Txt(format!("{lo}..{hi:?}"))));
+                if opts.debug && i < 2 {
+                    dbg(rec, format!("w.dbg.iter{i}"), &it, true);
+                }
+            }
             match catch(|| it.next()) {
                 None => {
                     rec.t.push(format!("w{i}"), Val::Panic);
@@ -122,7 +129,7 @@ pub fn exercise_loaded_hdr(rec: &mut Rec, hdr: &Multiboot2Header, opts: &HdrOpts
     // --- the same walk through nth() / count() (secondary iterator methods) ---
     {
         let n = items.len();
-        let mut ks = vec![0usize, 1, 2, n / 2, n.saturating_sub(1), n, n + 1];
+        let mut ks = vec![0usize, 1, 2, n / 2, n.saturating_sub(1), n, n + 1, n + 2, n + 3, n + 9];
         ks.sort_unstable();
         ks.dedup();
         for k in ks {
